@@ -1282,6 +1282,11 @@ class Buffer:
                 get_app().create_background_task(self._async_suggester())
 
     def undo(self) -> None:
+        # Don't touch the undo/redo stacks of a read-only buffer: the text
+        # can't be restored, and what is popped here would be lost.
+        if self.read_only():
+            raise EditReadOnlyBuffer()
+
         # Pop from the undo-stack until we find a text that if different from
         # the current text. (The current logic of `save_to_undo_stack` will
         # cause that the top of the undo stack is usually the same as the
@@ -1298,6 +1303,10 @@ class Buffer:
                 break
 
     def redo(self) -> None:
+        # (Same as for `undo`: keep the history of a read-only buffer.)
+        if self.read_only():
+            raise EditReadOnlyBuffer()
+
         if self._redo_stack:
             # Copy current state on undo stack.
             self.save_to_undo_stack(clear_redo_stack=False)
